@@ -567,6 +567,47 @@ func (m *engineImpl) do1(line string) string {
 		_ = hdr
 		_ = trl
 		return "ok " + d
+	case "sapplyx", "txapplyx": // <permille> <ltxspec>: the same file with one byte of its page data flipped
+		if len(f) < 9 || m.store == nil || m.exit != 0 { // at least one page
+			return "bad-op"
+		}
+		pm, ok0 := atoi(f[1])
+		b, ok := buildLTX(f[2:], m.store.Compress)
+		if !ok || !ok0 || pm < 0 || pm > 999 || len(b) < 100+16+8 {
+			return "bad-op"
+		}
+		b[100+int(pm)*(len(b)-116)/1000] ^= 0x20
+		if f[0] == "sapplyx" {
+			tctx, cancel := context.WithTimeout(ctx, 150*time.Millisecond)
+			defer cancel()
+			err := m.store.VerifProcessLTXStreamFrame(tctx, &litefs.LTXStreamFrame{Name: "db"}, bytes.NewReader(b))
+			if m.db == nil {
+				if m.db = m.store.DB("db"); m.db != nil {
+					m.db.Now = func() time.Time { return fixedNow }
+				}
+			}
+			switch {
+			case err == nil:
+				return m.withExit("ok")
+			case errors.Is(err, context.DeadlineExceeded):
+				return "busy"
+			case strings.Contains(err.Error(), "apply ltx"):
+				return m.withExit("apply-failed")
+			default:
+				return m.withExit("rejected")
+			}
+		}
+		if m.db == nil {
+			return "notfound"
+		}
+		path, err := m.db.WriteLTXFileAt(ctx, bytes.NewReader(b))
+		if err != nil {
+			return m.withExit("rejected")
+		}
+		if err := m.db.ApplyLTXNoLock(path, true); err != nil {
+			return m.withExit("apply-failed")
+		}
+		return m.withExit("ok")
 	case "sapply", "txapply": // <ltxspec>: min max pre post commit ps [pgno=data ...]
 		// sapply: the replication-stream path (Store.processLTXStreamFrame, creates the database if needed)
 		// txapply: the forwarding endpoint's path (WriteLTXFileAt + ApplyLTXNoLock, as handlePostTx)
